@@ -172,6 +172,10 @@ var vIndexTemplates = map[string][]string{
 	"ZREVRANGE":        {"ZREVRANGE", "k", "<i>", "<i>", "WITHSCORES"},
 	"ZRANGEBYSCORE":    {"ZRANGEBYSCORE", "k", "<i>", "<i>", "LIMIT", "<i>", "<i>"},
 	"ZREVRANGEBYSCORE": {"ZREVRANGEBYSCORE", "k", "<i>", "<i>", "WITHSCORES", "LIMIT", "<i>", "<i>"},
+	// quick variants: the score bounds come from three tokens, the LIMIT operands from the full integer alphabet
+	"ZRANGE-BYSCORE-Q":   {"ZRANGE", "k", "<s>", "<s>", "BYSCORE", "LIMIT", "<i>", "<i>"},
+	"ZRANGEBYSCORE-Q":    {"ZRANGEBYSCORE", "k", "<s>", "<s>", "LIMIT", "<i>", "<i>"},
+	"ZREVRANGEBYSCORE-Q": {"ZREVRANGEBYSCORE", "k", "<s>", "<s>", "WITHSCORES", "LIMIT", "<i>", "<i>"},
 	"SCAN":             {"SCAN", "<i>", "COUNT", "<i>"},
 	"SETEX":            {"SETEX", "k", "<i>", "v"},
 	"EXPIRE":           {"EXPIRE", "k", "<i>"},
@@ -192,6 +196,8 @@ func HarnessC07Index() {
 	for _, a := range vIndexTemplates[name] {
 		if a == "<i>" {
 			args = append(args, vIntToken())
+		} else if a == "<s>" {
+			args = append(args, []byte([]string{"0", "2", "-1"}[vsymChoice("score", 3)]))
 		} else {
 			args = append(args, []byte(a))
 		}
